@@ -385,6 +385,18 @@ func (f *fidRef) safelyRead(fn func() error) (err error) {
 	return fn()
 }
 
+// safelyReadParent is safelyRead on the parent's path node (the node itself
+// for a root). The parent is looked up with renameMu held, as renames change
+// it.
+func (f *fidRef) safelyReadParent(fn func() error) (err error) {
+	f.server.renameMu.RLock()
+	defer f.server.renameMu.RUnlock()
+	p := f.maybeParent()
+	p.pathNode.opMu.RLock()
+	defer p.pathNode.opMu.RUnlock()
+	return fn()
+}
+
 // safelyWrite executes the given operation with the local path node locked in
 // a writable fashion. This implies some paths may change.
 func (f *fidRef) safelyWrite(fn func() error) (err error) {
